@@ -142,6 +142,9 @@ func instrument(src, dst string) error {
 	return instrumentFile(fset, f, nil, dst)
 }
 
+// curInfo is the type information of the file being instrumented (nil for harness files).
+var curInfo *types.Info
+
 func instrumentFile(fset *token.FileSet, f *ast.File, info *types.Info, dst string) error {
 	// keep only directive comments (go:build etc.)
 	var keep []*ast.CommentGroup
@@ -157,6 +160,7 @@ func instrumentFile(fset *token.FileSet, f *ast.File, info *types.Info, dst stri
 	}
 	f.Comments = keep
 	f.Doc = nil
+	curInfo = info
 	r := &rewriter{fset: fset, file: f, randNms: map[string]string{}, info: info}
 	// imports
 	for _, im := range f.Imports {
@@ -376,6 +380,18 @@ func hasChanOp(n ast.Node) bool {
 			if se, ok := n.Fun.(*ast.SelectorExpr); ok {
 				if id, ok := se.X.(*ast.Ident); ok && id.Name == "atomic" && id.Obj == nil {
 					found = true
+				}
+				// methods of the typed atomics (atomic.Int64, atomic.Bool, atomic.Pointer[T], ...)
+				if curInfo != nil {
+					if sel := curInfo.Selections[se]; sel != nil {
+						t := sel.Recv()
+						if p, ok := t.(*types.Pointer); ok {
+							t = p.Elem()
+						}
+						if nt, ok := t.(*types.Named); ok && nt.Obj().Pkg() != nil && nt.Obj().Pkg().Path() == "sync/atomic" {
+							found = true
+						}
+					}
 				}
 			}
 		}
